@@ -19,9 +19,9 @@ import (
 // behaves as one register per variable, for every history.
 
 type vsCfg struct {
-	Instant string      `json:"instant"`
-	Prepop  []vsPrepop  `json:"prepopulated,omitempty"`
-	Vars    []VarSpec   `json:"vars"`
+	Instant string     `json:"instant"`
+	Prepop  []vsPrepop `json:"prepopulated,omitempty"`
+	Vars    []VarSpec  `json:"vars"`
 }
 
 type vsPrepop struct {
@@ -103,7 +103,8 @@ func (e *varstoreEngine) Gen(seed uint64, tier string, run int) *Trace {
 	// small value universe per run so that values repeat, grow and shrink
 	dbvals := []ValSpec{{Kind: "hashdb", N: 0}, {Kind: "hashdb", N: 1, Tag: 1 + r.Intn(3)}, {Kind: "hashdb", N: 2, Tag: 1 + r.Intn(3)},
 		{Kind: "hashdb", N: 3, Tag: 1 + r.Intn(3)}, {Kind: "hashdb", N: r.Range(4, 9), Tag: 9}, {Kind: "certdb", Tag: r.Intn(poolSize)},
-		{Kind: "multidb", N: r.Range(2, 4), Tag: r.Intn(4)}, {Kind: "tailemptydb", N: r.Intn(3), Tag: r.Intn(4)}}
+		{Kind: "multidb", N: r.Range(2, 4), Tag: r.Intn(4)}, {Kind: "tailemptydb", N: r.Intn(3), Tag: r.Intn(4)},
+		{Kind: "randdb", Tag: r.Intn(1 << 24)}, {Kind: "randdb", Tag: r.Intn(1 << 24)}}
 	rawvals := []ValSpec{{Kind: "raw", N: 0}, {Kind: "raw", N: 1, Tag: 1}, {Kind: "raw", N: 4, Tag: 2}, {Kind: "raw", N: 7, Tag: 3},
 		{Kind: "raw", N: 48, Tag: 4}, {Kind: "raw", N: r.Range(49, 400), Tag: 5}, {Kind: "bootorder", N: r.Range(1, 6), Tag: 1}}
 	val := func(i int) ValSpec {
